@@ -32,7 +32,21 @@ var crashWorkloads = map[string][]cwStep{
 	"W1": {{Kind: "init"}, {Kind: "create", ID: "c", N: 3, K: "kc"}, {Kind: "update", ID: "a", N: 11, K: "kz"}, {Kind: "delete", ID: "b"}, {Kind: "init"}, {Kind: "close"}},
 	"W2": {{Kind: "init"}, {Kind: "delete", ID: "a"}, {Kind: "reopen"}, {Kind: "init"}, {Kind: "update", ID: "b", N: 22, K: "kb2"}, {Kind: "close"}},
 	"W4": {{Kind: "create", ID: "a", N: 7, K: "k7"}, {Kind: "create", ID: "b", N: 8, K: ""}, {Kind: "init"}, {Kind: "delete", ID: "a"}, {Kind: "reopen"}, {Kind: "init"}, {Kind: "close"}},
+	// W5: an Init whose seed set is larger than one BadgerDB transaction (the database is opened with small
+	// tables for this workload): it must seed everything or nothing, at every kill point
+	"W5": {{Kind: "create", ID: "x", N: 1, K: "kx"}, {Kind: "biginit"}, {Kind: "create", ID: "y", N: 2, K: "ky"}, {Kind: "close"}},
 	"W3": {{Kind: "create", ID: "z", N: 9, K: "kz"}, {Kind: "init"}, {Kind: "delete", ID: "z"}, {Kind: "create", ID: "a", N: 5, K: "k5"}, {Kind: "reopen"}, {Kind: "init"}, {Kind: "create", ID: "c", N: 3, K: ""}, {Kind: "close"}},
+}
+
+const cwBigSeeds = 2500
+
+func cwBigInit(st *badgerstore.Store) error {
+	return st.Init(func(add func(id string, v interface{})) error {
+		for i := 0; i < cwBigSeeds; i++ {
+			add(fmt.Sprintf("s%04d", i), cwValue(i, ""))
+		}
+		return nil
+	})
 }
 
 var cwSeeds = []cwStep{{ID: "a", N: 1, K: "ka"}, {ID: "b", N: 2, K: "kb"}}
@@ -81,6 +95,19 @@ func (m cwModel) apply(s cwStep) (cwModel, bool) {
 			n.initDone = true
 		}
 		return n, true
+	case "biginit":
+		// applied: everything seeded (whether the call succeeds depends on BadgerDB's transaction limit: the
+		// judge takes that from the acknowledgement)
+		if !n.initDone {
+			for i := 0; i < cwBigSeeds; i++ {
+				id := fmt.Sprintf("s%04d", i)
+				if _, ok := n.vals[id]; !ok {
+					n.vals[id] = fmt.Sprintf("%d/", i)
+				}
+			}
+			n.initDone = true
+		}
+		return n, true
 	case "create":
 		if _, ok := n.vals[s.ID]; ok {
 			return n, false
@@ -103,10 +130,16 @@ func (m cwModel) apply(s cwStep) (cwModel, bool) {
 	return n, true
 }
 
+// cwSmallTables makes one BadgerDB transaction hold about 1 600 entries (workload W5).
+var cwSmallTables bool
+
 func cwOpen(dir string) (*badger.DB, error) {
 	opts := badger.DefaultOptions(dir)
 	opts.Logger = nil
 	opts.Truncate = true
+	if cwSmallTables {
+		opts.MaxTableSize = 1 << 20
+	}
 	return badger.Open(opts)
 }
 
@@ -150,6 +183,7 @@ func cmdCrashChild(args []string) {
 	index := fs.Bool("index", false, "attach a QueryStore (index updates run without Flush)")
 	fs.Parse(args)
 	ack := os.NewFile(3, "ack")
+	cwSmallTables = *wl == "W5"
 	db, err := cwOpen(*dir)
 	if err != nil {
 		fail("open: %v", err)
@@ -167,6 +201,8 @@ func cmdCrashChild(args []string) {
 		switch s.Kind {
 		case "init":
 			err = cwInit(st)
+		case "biginit":
+			err = cwBigInit(st)
 		case "create":
 			wt := st.Write(s.ID)
 			err = wt.Create(cwValue(s.N, s.K))
@@ -491,6 +527,13 @@ func cwJudge(imgDir, wl, prefix string, acked int, ackResults []string, emit fun
 	lo := cwModel{vals: map[string]string{}}
 	for i := 0; i < acked && i < len(steps); i++ {
 		var ok bool
+		if steps[i].Kind == "biginit" {
+			// either everything (acknowledged ok) or nothing (acknowledged as failed)
+			if i < len(ackResults) && ackResults[i] == "ok" {
+				lo, _ = lo.apply(steps[i])
+			}
+			continue
+		}
 		lo, ok = lo.apply(steps[i])
 		want := "ok"
 		if !ok {
@@ -504,6 +547,7 @@ func cwJudge(imgDir, wl, prefix string, acked int, ackResults []string, emit fun
 	if acked < len(steps) {
 		hi, _ = lo.apply(steps[acked])
 	}
+	cwSmallTables = wl == "W5"
 	db, err := cwOpen(imgDir)
 	if err != nil {
 		emit(fmt.Sprintf("the database does not open after the crash: %v", err))
@@ -517,8 +561,15 @@ func cwJudge(imgDir, wl, prefix string, acked int, ackResults []string, emit fun
 	case hi.String():
 		sig = "hi"
 	default:
-		emit(fmt.Sprintf("recovered content %s is neither the state after the %d acknowledged calls %s nor that with the call in flight applied %s", got, acked, lo, hi))
+		if wl == "W5" {
+			emit(fmt.Sprintf("recovered content has %d values (init marker %v): neither the state after the %d acknowledged calls (%d values) nor that with the call in flight applied (%d values) - Init must seed everything or nothing", len(got.vals), got.initDone, acked, len(lo.vals), len(hi.vals)))
+		} else {
+			emit(fmt.Sprintf("recovered content %s is neither the state after the %d acknowledged calls %s nor that with the call in flight applied %s", got, acked, lo, hi))
+		}
 		return "mismatch"
+	}
+	if wl == "W5" {
+		return sig // the re-Init and index checks are those of W1-W4
 	}
 	// Init again: seeds exactly once over all restarts
 	st, qs := cwStores(db, prefix)
@@ -573,7 +624,7 @@ func cwJudge(imgDir, wl, prefix string, acked int, ackResults []string, emit fun
 
 func init() {
 	seqChecks["c12"] = &seqCheck{run: runC12, replay: nil,
-		rule: "workloads W1-W4 x prefix {'ba' (sharing its characters with the ids), empty} x {plain store, store with QueryStore} recorded once each under strace; every prefix of the recorded file-operation log (a process kill between two syscalls) and, for every value-log write, torn images cut at 1, n/2, n-1 (quick) / every byte (thorough), each reopened with the real BadgerDB and judged against the acknowledgements that precede the crash point; distinct = images whose recovered content differs"}
+		rule: "workloads W1-W4 x prefix {'ba' (sharing its characters with the ids), empty} x {plain store, store with QueryStore} recorded once each under strace, plus W5 (an Init with 2 500 seeds against a database whose transactions hold about 1 600 entries: all or nothing); every prefix of the recorded file-operation log (a process kill between two syscalls) and, for every value-log write, torn images cut at 1, n/2, n-1 (quick) / every byte (thorough), each reopened with the real BadgerDB and judged against the acknowledgements that precede the crash point; distinct = images whose recovered content differs"}
 }
 
 func runC12(c *seqCtx) {
@@ -593,10 +644,13 @@ func runC12(c *seqCtx) {
 	self, _ := os.Executable()
 	distinct := map[string]bool{}
 	n := 0
-	for _, wl := range []string{"W1", "W2", "W3", "W4"} {
+	for _, wl := range []string{"W1", "W2", "W3", "W4", "W5"} {
 		// the set prefix shares its characters with the ids (a, b, ba. ...): prefix handling must cut by length
 		for _, prefix := range []string{"ba", ""} {
 			for _, index := range []bool{false, true} {
+				if wl == "W5" && (prefix != "" || index) {
+					continue // the oversized Init is recorded once
+				}
 				n++
 				rec := filepath.Join(root, fmt.Sprintf("rec%d", n))
 				dbdir := filepath.Join(rec, "db")
